@@ -620,6 +620,34 @@ func c16Helpers(w *World, b *Backend, r *Result, rules ...string) {
 				r.Bad(rule, c, w.Pos(mf.Fn.Pos()), m+" can emit an invocation of "+h+" without setting "+flag+": the script would call a routine it does not contain")
 			}
 		}
+		// (c) Batch: a routine requested by ProgramEnd on behalf of another routine is called by that routine
+		if b.Role == "batch" {
+			var outers []string
+			for outer := range dep {
+				outers = append(outers, outer)
+			}
+			sort.Strings(outers)
+			for _, outer := range outers {
+				if !dep[outer][flag] || outer == flag {
+					continue
+				}
+				outerHelper := ""
+				for h2, f2 := range flags {
+					if f2 == outer {
+						outerHelper = h2
+					}
+				}
+				if outerHelper == "" {
+					continue
+				}
+				c := fmt.Sprintf("helper:%s:%s:requested-for:%s", b.Role, h, outerHelper)
+				if helperReaches(b, outerHelper, h, map[string]bool{}) {
+					r.Ok(rule, c, pos, "ProgramEnd requests "+h+" together with "+outerHelper+", whose body calls it")
+				} else {
+					r.Bad(rule, c, pos, "ProgramEnd requests "+h+" whenever "+outerHelper+" is emitted, but the body of "+outerHelper+" never calls it: a script that needs only "+outerHelper+" contains a routine it does not use")
+				}
+			}
+		}
 		// (b) Batch: flag implies invocation ("contains each helper routine exactly when it is used")
 		if b.Role == "batch" {
 			for name, mf := range b.X.Methods {
